@@ -18,6 +18,16 @@ from libertem_blobfinder.udf import refinement as ur, correlation as uc, integra
 LEVEL = 'proof'
 
 
+def flat_indices(indices):
+    '''the documented meaning of the two index layouts, independent of base.utils.regularize_indices:
+    (2, n, m) = output of np.mgrid -> pairs in the order of np.concatenate(indices.T); (n, 2) = list of pairs'''
+    indices = np.asarray(indices)
+    if indices.ndim == 3 and indices.shape[0] == 2:
+        return np.array([[indices[0, i, j], indices[1, i, j]] for j in range(indices.shape[2]) for i in range(indices.shape[1])])
+    assert indices.ndim == 2 and indices.shape[1] == 2
+    return indices
+
+
 def rand_partitions(rng, n):
     order = [int(i) for i in rng.permutation(n)] if rng.integers(0, 2) else list(range(n))
     parts, k = [], 0
@@ -56,8 +66,15 @@ def gen_refine(rng, combo=None):
     for s in shifts:
         fr, _, _ = cbed_frame(fy=fy, fx=fx, zero=zero + s, a=a, b=b, indices=np.mgrid[-3:4, -3:4], radius=radius, all_equal=False, margin=radius + 1)
         data.append(fr[0] + rng.poisson(0.2, size=(fy, fx)))
-    layout = str(rng.choice(['mgrid', 'list']))
-    idx = np.mgrid[-3:4, -3:4] if layout == 'mgrid' else np.array([(i, j) for i in range(-3, 4) for j in range(-3, 4)])[rng.permutation(49)[:30]]
+    layout = str(rng.choice(['mgrid', 'list', 'mgrid (2,7,2)', 'mgrid (2,2,5)']))
+    if layout == 'mgrid':
+        idx = np.mgrid[-3:4, -3:4]
+    elif layout == 'mgrid (2,7,2)':
+        idx = np.mgrid[-3:4, 0:2]             # an mgrid whose last axis happens to have length 2 is still an mgrid
+    elif layout == 'mgrid (2,2,5)':
+        idx = np.mgrid[-1:1, -2:3]
+    else:
+        idx = np.array([(i, j) for i in range(-3, 4) for j in range(-3, 4)])[rng.permutation(49)[:30]]
     return dict(data=np.array(data, dtype=np.float32), zero=zero, a=a, b=b, shifts=shifts, zs=zs, zk=zk, radius=radius, search=search, indices=idx, layout=layout,
                 correlation=str(rng.choice(['fast', 'fullframe', 'sparse'])) if combo is None else combo[0],
                 match=str(rng.choice(['fast', 'affine'])) if combo is None else combo[1],
@@ -86,7 +103,7 @@ def refine_failure(c):
     except Exception as e:  # noqa
         return 'run_refine raised %s: %s (correlation=%s match=%s zero shift %s, %d frames, partitions %s)' % (type(e).__name__, e, corr, c['match'], c['zk'], n, c['parts'])
     # the peaks correlated: lattice positions keeping the margin `search`, truncated to int; indices returned
-    flat = bu.regularize_indices(c['indices'])
+    flat = flat_indices(c['indices'])
     coords = c['zero'] + flat @ np.array([c['a'], c['b']])
     r = c['search']
     keep = [k for k in range(len(flat)) if (r <= coords[k][0] < fy - r) and (r <= coords[k][1] < fx - r)]
@@ -249,7 +266,7 @@ def run(ctx):
     for k in range(ctx.n(10, 60)):
         c = gen_refine(rng)
         n, fy, fx = c['data'].shape
-        idx = bu.regularize_indices(c['indices']).astype(float)
+        idx = flat_indices(c['indices']).astype(float)
         exprs.append('map (fun ip => match ip with (ij, p) => [ql (fst ij); ql (snd ij); ql (fst p); ql (snd p)] end) (frame_peaks %s %s %s %s %s %s [%s])'
                      % (cq(F(fy)), cq(F(fx)), qv(c['zero']), qv(c['a']), qv(c['b']), cq(F(c['search'])), '; '.join(qv(v) for v in idx)))
         pattern = pat.RadialGradient(radius=c['radius'], search=c['search'])
